@@ -325,6 +325,7 @@ struct __redu_lcd_animation_state {
   unsigned long speed_ms;
   bool loop;
   unsigned long last_step;
+  bool stepped;
   int offset;
   int direction;
   int visible;
@@ -337,6 +338,7 @@ struct __redu_lcd_animation_state {
         speed_ms(0UL),
         loop(false),
         last_step(0UL),
+        stepped(false),
         offset(0),
         direction(1),
         visible(0),
@@ -359,6 +361,7 @@ void __redu_lcd_start_scroll(
   state.speed_ms = speed_ms;
   state.loop = loop;
   state.last_step = 0UL;
+  state.stepped = false;
   state.offset = 0;
   state.direction = 1;
   state.visible = 0;
@@ -383,13 +386,14 @@ void __redu_lcd_tick_scroll(
     return;
   }
   unsigned long now = millis();
-  if (state.speed_ms > 0UL && state.last_step > 0UL) {
+  if (state.speed_ms > 0UL && state.stepped) {
     unsigned long elapsed = now - state.last_step;
     if (elapsed < state.speed_ms) {
       return;
     }
   }
   state.last_step = now;
+  state.stepped = true;
   String padded = state.text;
   if (padded.length() < cols) {
     int deficit = cols - padded.length();
@@ -443,6 +447,7 @@ void __redu_lcd_start_blink(
   state.speed_ms = speed_ms;
   state.loop = loop;
   state.last_step = 0UL;
+  state.stepped = false;
   state.offset = 0;
   state.direction = 1;
   state.visible = text.length();
@@ -467,13 +472,14 @@ void __redu_lcd_tick_blink(
     return;
   }
   unsigned long now = millis();
-  if (state.speed_ms > 0UL && state.last_step > 0UL) {
+  if (state.speed_ms > 0UL && state.stepped) {
     unsigned long elapsed = now - state.last_step;
     if (elapsed < state.speed_ms) {
       return;
     }
   }
   state.last_step = now;
+  state.stepped = true;
   state.show = !state.show;
   if (state.show) {
     String view = state.text;
@@ -506,6 +512,7 @@ void __redu_lcd_start_typewriter(
   state.speed_ms = speed_ms;
   state.loop = loop;
   state.last_step = 0UL;
+  state.stepped = false;
   state.offset = 0;
   state.direction = 1;
   state.visible = text.length() > 0 ? 1 : 0;
@@ -532,13 +539,14 @@ void __redu_lcd_tick_typewriter(
     return;
   }
   unsigned long now = millis();
-  if (state.speed_ms > 0UL && state.last_step > 0UL) {
+  if (state.speed_ms > 0UL && state.stepped) {
     unsigned long elapsed = now - state.last_step;
     if (elapsed < state.speed_ms) {
       return;
     }
   }
   state.last_step = now;
+  state.stepped = true;
   int length = state.text.length();
   if (length <= 0) {
     __redu_lcd_clear_row(lcd, cols, state.row);
@@ -584,6 +592,7 @@ void __redu_lcd_start_bounce(
   state.speed_ms = speed_ms;
   state.loop = loop;
   state.last_step = 0UL;
+  state.stepped = false;
   state.offset = 0;
   state.direction = 1;
   state.visible = text.length();
@@ -608,13 +617,14 @@ void __redu_lcd_tick_bounce(
     return;
   }
   unsigned long now = millis();
-  if (state.speed_ms > 0UL && state.last_step > 0UL) {
+  if (state.speed_ms > 0UL && state.stepped) {
     unsigned long elapsed = now - state.last_step;
     if (elapsed < state.speed_ms) {
       return;
     }
   }
   state.last_step = now;
+  state.stepped = true;
   int length = state.text.length();
   if (length <= 0) {
     __redu_lcd_clear_row(lcd, cols, state.row);
